@@ -197,7 +197,7 @@ func fullSeqs(p *pw.Path) (seqs [][]seqEv, facts []*pw.Path) {
 func (c *Ctx) c05Sibling(fo *FO) {
 	r := c.R
 	cons := fo.Name + ".Get"
-	minus1 := fo.E.IntConst(-1)
+	_ = fo.E.IntConst(-1)
 	nSync, nBuilds, nFail, nHits := 0, 0, 0, 0
 	for _, p := range fo.Paths {
 		cl, err := fo.classify(p)
@@ -270,12 +270,7 @@ func (c *Ctx) c05Sibling(fo *FO) {
 			}
 			enabled := triUnknown
 			if fv := fo.cfgVal(fp, "FailedUpdateTTL"); fv != nil {
-				rel := fp.Rel(fv, minus1)
-				if rel&^pw.RGt == 0 {
-					enabled = triTrue
-				} else if rel&pw.RGt == 0 {
-					enabled = triFalse
-				}
+				enabled = gtMinus1(fp, fo.E, fv)
 			}
 			relIdx := -1
 			for i, se := range seq {
@@ -429,7 +424,7 @@ func (c *Ctx) c05Constructor(sib string) {
 		return
 	}
 	c.R.Func(name)
-	minus1 := e.IntConst(-1)
+	_ = e.IntConst(-1)
 	zero := e.IntConst(0)
 	nWith, nWithout := 0, 0
 	for _, p := range paths {
@@ -470,8 +465,7 @@ func (c *Ctx) c05Constructor(sib string) {
 			r.Unknown("R05.5", name, "constructor never reads FailedUpdateTTL")
 			return
 		}
-		rel := p.Rel(ttl, minus1)
-		disabled := rel&pw.RGt == 0
+		disabled := gtMinus1(p, e, ttl) == triFalse
 		if write == nil {
 			nWithout++
 			if !disabled {
